@@ -68,5 +68,7 @@ nd::harnesses! {
     }
 }
 
-pub const TABLES: &[&[(&str, fn())]] = &[TABLE];
+pub mod wrapper;
+
+pub const TABLES: &[&[(&str, fn())]] = &[TABLE, wrapper::TABLE];
 
